@@ -274,10 +274,23 @@ func (s *Solver) Values(ts []*Term) ([]*Term, error) {
 		return nil, fmt.Errorf("no model (answer came from the fallback solver)")
 	}
 	res := make([]*Term, len(ts))
-	for i, t := range ts {
+	before := len(s.declLvl)
+	for _, t := range ts {
 		s.declareVars(t)
+	}
+	if len(s.declLvl) != before {
+		// new declarations/axioms invalidate the solver's model: re-check first
+		s.send("(check-sat)")
+		if r := s.readLine(); r != "sat" {
+			return nil, fmt.Errorf("re-check after declaring variables: %s", r)
+		}
+	}
+	for i, t := range ts {
 		s.send("(get-value (" + t.SMT() + "))")
 		sx := s.readSexp()
+		if os.Getenv("SYMGO_DEBUG") != "" {
+			fmt.Fprintf(os.Stderr, "get-value %s -> %q\n", t.SMT(), sx)
+		}
 		v, err := parseValue(s.tt, sx, t)
 		if err != nil {
 			return nil, fmt.Errorf("get-value %s: %v (%q)", t.SMT(), err, sx)
